@@ -195,7 +195,7 @@ def _big_sqrt(it, st, args, ctx):
 
 @summary(r'^<(u8|u16|u32|u64|u128) as (num::integer::)?Roots>::sqrt$')
 def _uint_sqrt(it, st, args, ctx):
-    return isqrt_bv(args[0])
+    return isqrt_bv(deref(it, st, args[0]))  # Roots::sqrt takes &self
 
 
 _ISQRT = {}
